@@ -9,7 +9,7 @@
    counting and tokio's task ownership are not modelled; the schema is tied to
    the real crate by destructor counters on every run (tools/props/c20.py). *)
 From Coq Require Import List NArith Arith Bool.
-From DesVerif Require Import Own.Heap Own.Frame Own.Inv Own.Shape Own.Rank Own.Check Own.Cycle Own.Model Own.Main.
+From DesVerif Require Import Own.Heap Own.Frame Own.Inv Own.Shape Own.Rank Own.Check Own.Cycle Own.World Own.Model Own.Main.
 Import ListNotations.
 Local Open Scope nat_scope.
 
